@@ -32,10 +32,10 @@ Proof.
   destruct (brk || match t_tgt t with Some _ => true | None => false end).
   - destruct (t_fall t); [apply Hr|].
     destruct (immediate_done d t); [reflexivity|].
-    destruct (is_end s); [cbn; destruct (accepting d src); reflexivity | reflexivity].
+    destruct (is_end s); [cbn; destruct (_ || accepting d src); reflexivity | reflexivity].
   - destruct (t_fall t). { cbn. destruct (accepting d src); [reflexivity|]. destruct (is_end s); reflexivity. }
     destruct (immediate_done d t); [reflexivity|].
-    destruct (is_end s); cbn; destruct (accepting d src); reflexivity.
+    destruct (is_end s); cbn; [destruct (_ || accepting d src); reflexivity | destruct (accepting d src); reflexivity].
 Qed.
 
 Lemma run_acts_good rec src s t : (forall q, tree_all leaf_good (rec q) = true) ->
